@@ -161,8 +161,33 @@ fn trip_or_refuse<T: Serialize + DeserializeOwned + PartialEq + Debug>(v: &T) ->
     }
 }
 
+/// infinities: the statement lets the layer refuse what the term format cannot carry (Erlang has no infinite floats),
+/// so any error is accepted; a value that does come back must be the one that went in
+fn trip_or_error<T: Serialize + DeserializeOwned + PartialEq + Debug>(v: &T) -> Result<(), (String, String)> {
+    match trip(v, true) {
+        Err((sig, _)) if sig.ends_with("-error") || sig == "independent-reader-rejects" => Ok(()),
+        r => r,
+    }
+}
+
+/// sequences longer than the 16-bit length fields of the format's compact forms
+fn long_sequences() -> Vec<Case> {
+    let mut out = vec![];
+    for n in [65_534usize, 65_535, 65_536, 65_537, 70_000, 131_072, 200_000] {
+        out.push(Case::VecU8((0..n).map(|i| (i * 7 % 256) as u8).collect()));
+        out.push(Case::VecI64((0..n).map(|i| (i % 256) as i64).collect()));
+        out.push(Case::VecVec(vec![vec![3], (0..n).map(|i| (i % 200) as u16).collect(), vec![]]));
+        out.push(Case::OptVec(Some((0..n).map(|i| (i % 256) as u32).collect())));
+        out.push(Case::Str("a".repeat(n)));
+        out.push(Case::Tup2((n as u64, "\u{e9}".repeat(n / 2))));
+    }
+    out
+}
+
 pub fn oracle(c: &Case) -> Verdict {
     let r = match c {
+        Case::F32(v) if v.is_infinite() => trip_or_error(v),
+        Case::F64(v) if v.is_infinite() => trip_or_error(v),
         Case::I128(h, l) => trip_or_refuse(&(((*h as i128) << 64) | *l as i128)),
         Case::U128(h, l) => trip_or_refuse(&(((*h as u128) << 64) | *l as u128)),
         Case::I8(v) => trip(v, true),
@@ -308,7 +333,7 @@ fn s_f64() -> BoxedStrategy<f64> {
 }
 fn s_f32() -> BoxedStrategy<f32> {
     prop_oneof![
-        prop::sample::select(vec![0.0f32, -0.0, 1.0, -1.5, f32::MIN_POSITIVE, f32::MAX, f32::MIN, 1e-45, 16777217.0, 0.1]),
+        prop::sample::select(vec![0.0f32, -0.0, 1.0, -1.5, f32::MIN_POSITIVE, f32::MAX, f32::MIN, 1e-45, 16777217.0, 0.1, f32::INFINITY, f32::NEG_INFINITY]),
         any::<u32>().prop_map(|b| {
             let f = f32::from_bits(b);
             if f.is_finite() {
@@ -393,7 +418,7 @@ fn strategy() -> impl Strategy<Value = Case> {
             (prop_oneof![Just(0i64), Just(-1), Just(1), Just(i64::MAX), Just(i64::MIN), any::<i64>()], s_u64()).prop_map(|(h, l)| Case::I128(h, l)),
             (prop_oneof![Just(0u64), Just(1), Just(u64::MAX), any::<u64>()], s_u64()).prop_map(|(h, l)| Case::U128(h, l)),
             s_f32().prop_map(Case::F32),
-            s_f64().prop_map(Case::F64),
+            prop_oneof![12 => s_f64(), 1 => Just(f64::INFINITY), 1 => Just(f64::NEG_INFINITY)].prop_map(Case::F64),
         ],
         prop_oneof![
             any::<bool>().prop_map(Case::Bool),
@@ -433,15 +458,16 @@ fn strategy() -> impl Strategy<Value = Case> {
 }
 
 pub fn run(run: &mut Run) {
-    run.rule = "values of 38 representative Rust types (every integer width over its full range with boundaries 2^7..2^63, f32/f64 without NaN, bool, char incl. non-BMP, strings incl. \
+    run.rule = "values of 38 representative Rust types (every integer width over its full range with boundaries 2^7..2^63, f32/f64 without NaN (infinities: round trip or an error, never another value), bool, char incl. non-BMP, strings incl. \
         'undefined'/'nil' as text, Option<T>, (), tuples, Vec<T>, HashMap/BTreeMap with String/i64/u32/bool/char keys, newtype/tuple/unit/named structs, enums with all four \
-        variant shapes, derive(ElixirStruct) types, nestings): to_term/from_term and to_bytes/from_bytes must return the original (floats by bits). Non-trivial = beyond i32, non-ASCII, \
+        variant shapes, derive(ElixirStruct) types, nestings; sequences and strings of 65534..200000 elements): to_term/from_term and to_bytes/from_bytes must return the original (floats by bits). Non-trivial = beyond i32, non-ASCII, \
         non-empty collection or structured type; distinct by value"
         .into();
     run.assumptions = vec![
         "excluded as the statement says: Option<Option<T>>, Option<()>, NaN; also enum variants / unit structs literally named undefined or nil inside an Option".into(),
         "map keys are deduplicated by the generator (a Rust map cannot hold duplicates)".into(),
     ];
+    run.enumerate("long-sequences", long_sequences().into_iter(), oracle);
     run.prop("round-trip", strategy, run.tier.pick(80_000, 3_000_000), oracle);
     // the round trip does not depend on what the same thread was made to decode (and reject) before
     run.prop("round-trip-after-rejections", after_strategy, run.tier.pick(1_500, 60_000), after_oracle);
@@ -483,5 +509,5 @@ fn after_strategy() -> impl Strategy<Value = AfterCase> {
 }
 
 pub fn replays() -> Vec<ReplayEntry> {
-    vec![replay_entry("round-trip", oracle), replay_entry("round-trip-after-rejections", after_oracle)]
+    vec![replay_entry("round-trip", oracle), replay_entry("long-sequences", oracle), replay_entry("round-trip-after-rejections", after_oracle)]
 }
